@@ -272,9 +272,14 @@ impl Run<'_> {
           argv.extend(["--postage".into(), format!("{p}sat")]);
         }
         argv.extend([dest_address(*destk), format!("{dec}:{}", rune_name(ri))]);
+        // text that is not a `Decimal` at all is rejected by the argument parser, before anything else
+        if ord::decimal::Decimal::from_str(dec).is_err() {
+          amt_tok = "unparsable".into();
+        }
         if let Some(i) = ri {
           subject = holders(&[*i]);
-          if let Ok(a) = ord::decimal::Decimal::from_str(dec).and_then(|d| d.to_integer(recipe.runes[*i].div)) {
+          if amt_tok == "unparsable" {
+          } else if let Ok(a) = ord::decimal::Decimal::from_str(dec).and_then(|d| d.to_integer(recipe.runes[*i].div)) {
             amt_tok = a.to_string();
             req.push([(w.rune_ids[*i], a)].into());
           } else {
@@ -284,9 +289,14 @@ impl Run<'_> {
       }
       Cmd::Burn { ri, dec } => {
         argv.extend(["burn".into(), "--fee-rate".into(), "1".into(), format!("{dec}:{}", rune_name(ri))]);
+        // text that is not a `Decimal` at all is rejected by the argument parser, before anything else
+        if ord::decimal::Decimal::from_str(dec).is_err() {
+          amt_tok = "unparsable".into();
+        }
         if let Some(i) = ri {
           subject = holders(&[*i]);
-          if let Ok(a) = ord::decimal::Decimal::from_str(dec).and_then(|d| d.to_integer(recipe.runes[*i].div)) {
+          if amt_tok == "unparsable" {
+          } else if let Ok(a) = ord::decimal::Decimal::from_str(dec).and_then(|d| d.to_integer(recipe.runes[*i].div)) {
             amt_tok = a.to_string();
             req.push([(w.rune_ids[*i], a)].into());
           } else {
@@ -446,7 +456,7 @@ impl Run<'_> {
           &format!("wr.send {rs} {cs} {ids} {} {amt_tok} {dest} {postage}", ri.map(|i| i.to_string()).unwrap_or("x".into())),
           &answer,
         );
-        if ri.is_some() && amt_tok != "err" {
+        if ri.is_some() && amt_tok != "err" && amt_tok != "unparsable" {
           self.streams.emit(
             &format!("wr.oracle.zero {rs} {cs} {} {amt_tok} {}", cmd.name(), if result.is_ok() { "ok" } else { "err" }),
             "true",
